@@ -12,16 +12,19 @@ REGISTRATION = {
             "of a single writer (any source script, any prior file) and every crash-restart-retry history leaves a file "
             "that, if it has the stored size, hashes to its digest; successful Put is retrievable; Link needs the blob "
             "(full strength for the Link with the zero-length refusal); Resolve returns the hash of the manifest file; "
-            "Link-then-Resolve for the tree's Link variant; any interleaving of writers whose sources are the true content "
+            "Link-then-Resolve for the tree's Link variant; Link as effects on the manifest file (read + one atomic rename): every "
+            "crash cut and every moment a concurrent Resolve can observe leaves the name unresolvable or resolving to a digest "
+            "some Link asked for; any interleaving of writers whose sources are the true content "
             "is safe; over every history every blob Get reports hashes to its name; names are confined (any string is "
             "refused or denotes manifests/<h>/<n>/<m>/<t>, name operations never touch a blob). Lean-checked witnesses for "
             "the defects the model shares with the code (zero-length blob link, failing co-writer, chunk holes; F8 fixed). "
             "Tie 1: Link variant and the character classes/length limits of the real isValidPart regenerated from the tree "
             "and consumed by decide. Tie 2: random op histories with hostile names (results + final disk), every syscall-"
-            "level crash point of real writes executed in a child process killed under strace, seeded deterministic "
+            "level crash point of real Put/Import/Chunker.Put/Link calls executed in a child process killed under strace, Link with "
+            "a Resolve fired at the code's own yield point (testHookBeforeFinalWrite), seeded deterministic "
             "interleavings of real concurrent Puts (+ -race); L2 after every step: re-hash of every blob Get reports with a "
-            "stored size, store-ok-retrievable, acknowledged blobs stay, Link/Resolve agreement, directory-tree frame "
-            "condition of every operation.",
+            "stored size, store-ok-retrievable, acknowledged blobs stay, Link/Resolve agreement, resolved digests were asked for, "
+            "Unlink removes the name in every spelling, directory-tree frame condition of every operation.",
     "design_ref": "DESIGN.md §5 C08",
     "note": COMMON_NOTE + "Modelled, not verified: POSIX semantics of open/write/ftruncate/rename (program order = disk "
             "order, rename atomic, no torn write(2) other than a byte-prefix), io.Copy's 32 KiB buffering (scripts stay "
@@ -61,6 +64,10 @@ THEOREMS = [
     "OllamaVerif.C08.unlink_confined",
     "OllamaVerif.C08.history_manifests_confined",
     "OllamaVerif.C08.crash_history_trusted",
+    "OllamaVerif.C08.linkZ_file_effs",
+    "OllamaVerif.C08.link_crash_atomic",
+    "OllamaVerif.C08.link_cut_resolves_asked",
+    "OllamaVerif.C08.inplace_first_link_exposes_empty_manifest",
     "OllamaVerif.BlobCache.nameToPath_safe",
     # Tie 1: the Link theorems at the variant found in the tree (compile only for the repaired Link, fix 834f6be9a)
     "OllamaVerif.Tie.C08.tree_link_is_fixed",
@@ -137,7 +144,7 @@ def run(ctx):
     ctx.coverage["theorems_about_pinned_link_only"] = HISTORICAL
     ctx.coverage["link_variant"] = ["pinned (in place)", "repaired (temp+rename)", "repaired + zero-length refusal"][variant]
     env = {"VERIF_C08_FIXED": variant, "VERIF_N": ctx.scale(1200, 30000), "VERIF_NCONC": ctx.scale(1200, 20000),
-           "VERIF_NCRASH": ctx.scale(40, 200)}
+           "VERIF_NCRASH": ctx.scale(54, 270)}
     if ctx.replay:
         env["VERIF_REPLAY"] = ctx.replay_line_file()
     rc, out, outdir = ctx.go_test(PKG, OVERLAY, "^TestVerifC08$", env=env, timeout=3000)
